@@ -2385,5 +2385,167 @@ pub proof fn lemma_flat_push(s: Seq<EncodingStep>, x: EncodingStep, p: MqttPacke
     }
 //@end
 
+
+// ---------------------------------------------------------------------------------------------------------------------------------
+// MQTT 3.1.1 PUBLISH on the wire (C02): the steps written for a publish denote exactly the layout of OASIS 3.1.1 section 3.3, with
+// a Remaining Length equal to the number of bytes that follow it.
+// Strings: blen = UTF-8 length (what String::len returns), str_bytes = the UTF-8 bytes (what as_bytes returns); both uninterpreted.
+pub uninterp spec fn blen(s: Seq<char>) -> nat;
+pub uninterp spec fn str_bytes(s: Seq<char>) -> Seq<u8>;
+#[verifier::external_body] pub proof fn axiom_str_bytes(s: Seq<char>) ensures str_bytes(s).len() == blen(s) { }
+pub assume_specification [String::len] (s: &String) -> (r: usize) ensures r == blen(s@);
+// R16 handle constructors: "a fn pointer made from fn item f behaves as f" - whatever f's verified contract promises for a packet it accepts
+#[verifier::external_body]
+pub fn verif_of_FnP_MqttPacket__str<F: Fn(&MqttPacket) -> &str>(f: F) -> (r: FnP_MqttPacket__str)
+    ensures forall|p: MqttPacket| #[trigger] f.requires((&p,)) ==> exists|out: &str| #[trigger] f.ensures((&p,), out) && g_str(r, p) == str_bytes(out@),
+{ unimplemented!() }
+#[verifier::external_body]
+pub fn verif_of_FnP_MqttPacket__bytes<F: Fn(&MqttPacket) -> &[u8]>(f: F) -> (r: FnP_MqttPacket__bytes)
+    ensures forall|p: MqttPacket| #[trigger] f.requires((&p,)) ==> exists|out: &[u8]| #[trigger] f.ensures((&p,), out) && g_bytes(r, p) == out@,
+{ unimplemented!() }
+
+//@macro gneiss-mqtt/src/encode.rs get_packet_field
+//@macro gneiss-mqtt/src/encode.rs encode_length_prefixed_string fnptr_opaque
+//@macro gneiss-mqtt/src/encode.rs encode_raw_bytes fnptr_opaque
+
+//@fn gneiss-mqtt/src/mqtt/publish.rs get_publish_packet_topic props=C02
+    requires packet is Publish,
+    ensures packet matches MqttPacket::Publish(p) && r@ == p.topic@,
+//@end
+
+//@fn gneiss-mqtt/src/mqtt/publish.rs get_publish_packet_payload props=C02
+    requires packet matches MqttPacket::Publish(p) && p.payload is Some,
+    ensures packet matches MqttPacket::Publish(p) && p.payload matches Some(b) && r@ == b@,
+//@end
+
+pub open spec fn qos_num(q: QualityOfService) -> u8 {
+    match q { QualityOfService::AtMostOnce => 0u8, QualityOfService::AtLeastOnce => 1u8, QualityOfService::ExactlyOnce => 2u8 }
+}
+// OASIS 3.3.1: type 3 in the high nibble, DUP bit 3, QoS bits 2-1, RETAIN bit 0
+pub open spec fn publish_first_byte(p: PublishPacket) -> u8 {
+    (48 + (if p.duplicate { 8int } else { 0 }) + 2 * qos_num(p.qos) + (if p.retain { 1int } else { 0 })) as u8
+}
+//@fn gneiss-mqtt/src/mqtt/publish.rs compute_publish_fixed_header_first_byte props=C02
+    ensures r == publish_first_byte(*packet),
+//@@at bodystart
+    proof {
+        assert(3u8 << 4 == 48u8) by (bit_vector);
+        assert(48u8 | (1u8 << 3) == 56u8) by (bit_vector);
+        assert(forall|b: u8, q: u8| (b == 48 || b == 56) && q <= 2 ==> #[trigger] (b | (q << 1)) == b + 2 * q) by (bit_vector);
+        assert(forall|b: u8| b % 2 == 0 ==> #[trigger] (b | 1u8) == b + 1) by (bit_vector);
+        assert(packet.qos as u8 == qos_num(packet.qos));
+    }
+//@end
+
+
+pub open spec fn publish_remaining_len311(p: PublishPacket) -> nat {
+    2 + blen(p.topic@) + (if p.qos != QualityOfService::AtMostOnce { 2nat } else { 0 }) + (match p.payload { Some(b) => b@.len(), None => 0 })
+}
+// proved in the validate unit (same contract, same spec function); a signature-only stub here
+//@fn gneiss-mqtt/src/mqtt/publish.rs compute_publish_packet_length_properties311 stub
+    requires publish_remaining_len311(*packet) <= 268435455,
+    ensures r matches Ok(rem) && rem == publish_remaining_len311(*packet),
+//@end
+
+// OASIS 3.1.1 section 3.3: fixed header (first byte, Remaining Length), Topic Name (2-byte length + UTF-8), Packet Identifier iff QoS > 0, payload
+pub open spec fn publish311_body(p: PublishPacket) -> Seq<u8> {
+    be16_bytes(blen(p.topic@) as u16) + str_bytes(p.topic@)
+        + (if p.qos != QualityOfService::AtMostOnce { be16_bytes(p.packet_id) } else { Seq::<u8>::empty() })
+        + (match p.payload { Some(b) => b@, None => Seq::<u8>::empty() })
+}
+pub open spec fn publish311_bytes(p: PublishPacket) -> Seq<u8> {
+    seq![publish_first_byte(p)] + vli(publish_remaining_len311(p)) + publish311_body(p)
+}
+// the Remaining Length field says exactly how many bytes follow it
+pub proof fn lemma_publish311_remaining_length(p: PublishPacket)
+    requires blen(p.topic@) <= 65535,
+    ensures publish311_body(p).len() == publish_remaining_len311(p),
+{
+    axiom_str_bytes(p.topic@);
+}
+pub open spec fn is_publish_of(pk: MqttPacket, p: PublishPacket) -> bool { pk matches MqttPacket::Publish(q) && q == p }
+
+pub proof fn lemma_push_step(s: Seq<EncodingStep>, x: EncodingStep, pk: MqttPacket, base: Seq<u8>, acc: Seq<u8>)
+    requires flat(s, pk) == base + acc,
+    ensures flat(s.push(x), pk) == base + (acc + step_bytes(x, pk)),
+{
+    lemma_flat_push(s, x, pk);
+    assert(base + acc + step_bytes(x, pk) =~= base + (acc + step_bytes(x, pk)));
+}
+
+//@fn gneiss-mqtt/src/mqtt/publish.rs write_publish_encoding_steps311 props=C02
+    requires
+        blen(packet.topic@) <= 65535,                               // established by send-time validation (C16, validate unit)
+        publish_remaining_len311(*packet) <= 268435455,             // ditto (bounded by the maximum packet size)
+    ensures
+        r is Ok,
+        forall|pk: MqttPacket| is_publish_of(pk, *packet) && steps_wf(old(steps)@, pk) ==> steps_wf(final(steps)@, pk),
+        forall|pk: MqttPacket| is_publish_of(pk, *packet) ==> #[trigger] flat(final(steps)@, pk) == flat(old(steps)@, pk) + publish311_bytes(*packet),
+//@@at bodystart
+    let ghost s0 = steps@;
+    let ghost mut cur = steps@;
+    let ghost mut acc = Seq::<u8>::empty();
+    proof { assert forall|pk: MqttPacket| flat(cur, pk) == flat(s0, pk) + acc by { assert(flat(s0, pk) + acc =~= flat(s0, pk)); } }
+//@@at after "encode_integral_expression!(steps, Uint8, compute_publish_fixed_header_first_byte(packet));"
+    proof {
+        let x = EncodingStep::Uint8(publish_first_byte(*packet));
+        assert(steps@ =~= cur.push(x));
+        assert forall|pk: MqttPacket| flat(steps@, pk) == flat(s0, pk) + (acc + seq![publish_first_byte(*packet)]) by {
+            lemma_push_step(cur, x, pk, flat(s0, pk), acc); assert(step_bytes(x, pk) =~= seq![publish_first_byte(*packet)]);
+        }
+        acc = acc + seq![publish_first_byte(*packet)]; cur = steps@;
+    }
+//@@at after "encode_integral_expression!(steps, Vli, total_remaining_length);"
+    proof {
+        let x = EncodingStep::Vli(total_remaining_length);
+        assert(steps@ =~= cur.push(x));
+        assert forall|pk: MqttPacket| flat(steps@, pk) == flat(s0, pk) + (acc + vli(publish_remaining_len311(*packet))) by {
+            lemma_push_step(cur, x, pk, flat(s0, pk), acc); assert(step_bytes(x, pk) =~= vli(publish_remaining_len311(*packet)));
+        }
+        acc = acc + vli(publish_remaining_len311(*packet)); cur = steps@;
+    }
+//@@at after "encode_length_prefixed_string!(steps, get_publish_packet_topic, packet.topic);"
+    proof {
+        let x = steps@[steps@.len() - 2]; let y = steps@[steps@.len() - 1];
+        assert(steps@ =~= cur.push(x).push(y));
+        axiom_str_bytes(packet.topic@);
+        assert forall|pk: MqttPacket| is_publish_of(pk, *packet) implies
+            flat(steps@, pk) == flat(s0, pk) + (acc + be16_bytes(blen(packet.topic@) as u16) + str_bytes(packet.topic@)) && step_wf(y, pk) by {
+            assert(get_publish_packet_topic.requires((&pk,)));
+            lemma_push_step(cur, x, pk, flat(s0, pk), acc);
+            lemma_push_step(cur.push(x), y, pk, flat(s0, pk), acc + step_bytes(x, pk));
+            assert(step_bytes(x, pk) =~= be16_bytes(blen(packet.topic@) as u16));
+            assert(step_whole(y, pk) == str_bytes(packet.topic@));
+            assert(step_bytes(y, pk) =~= str_bytes(packet.topic@));
+        }
+        acc = acc + be16_bytes(blen(packet.topic@) as u16) + str_bytes(packet.topic@); cur = steps@;
+    }
+//@@at after "encode_integral_expression!(steps, Uint16, packet.packet_id);"
+        proof {
+            let x = EncodingStep::Uint16(packet.packet_id);
+            assert(steps@ =~= cur.push(x));
+            assert forall|pk: MqttPacket| is_publish_of(pk, *packet) implies flat(steps@, pk) == flat(s0, pk) + (acc + be16_bytes(packet.packet_id)) by {
+                lemma_push_step(cur, x, pk, flat(s0, pk), acc); assert(step_bytes(x, pk) =~= be16_bytes(packet.packet_id));
+            }
+            acc = acc + be16_bytes(packet.packet_id); cur = steps@;
+        }
+//@@at after "encode_raw_bytes!(steps, get_publish_packet_payload);"
+        proof {
+            let y = steps@[steps@.len() - 1];
+            assert(steps@ =~= cur.push(y));
+            assert forall|pk: MqttPacket| is_publish_of(pk, *packet) implies flat(steps@, pk) == flat(s0, pk) + (acc + packet.payload->Some_0@) && step_wf(y, pk) by {
+                assert(get_publish_packet_payload.requires((&pk,)));
+                lemma_push_step(cur, y, pk, flat(s0, pk), acc);
+                assert(step_whole(y, pk) == packet.payload->Some_0@);
+                assert(step_bytes(y, pk) =~= packet.payload->Some_0@);
+            }
+            acc = acc + packet.payload->Some_0@; cur = steps@;
+        }
+//@@at before "Ok(())"
+    proof {
+        assert(acc =~= publish311_bytes(*packet));
+    }
+//@end
+
 } // verus!
 fn main() {}
